@@ -191,6 +191,10 @@ def run(ctx):
                 if kind == 2 and rng.random() < 0.5:
                     s = F.transform.to_rfi(s)
                 ch = 1
+                if rng.random() < 0.15:
+                    # a sample without events (a gate kept nothing) still knows its channel range: it counts for T like any other
+                    s = s[:0]
+                    ctx.counters['chk:derive:empty-sample'] += 1
                 datas.append(s)
                 ys.append(np.asarray(s)[:, ch].astype(float))
                 rk.append(float(s.range(ch)[1]))
